@@ -114,6 +114,13 @@ Proof.
   rewrite nth_error_app1; [exact Hg|]. apply nth_error_Some. congruence.
 Qed.
 
+Lemma keep_stop s u self t s' o p : stop_if_parent_gone s u self t = (s', o, p) -> keep s s'.
+Proof.
+  unfold stop_if_parent_gone. destruct (get s u) as [pa|]; [|intros H; inversion H; subst; apply keep_refl].
+  destruct (st_ge_terminating (a_st pa)); [|intros H; inversion H; subst; apply keep_refl].
+  destruct (terminate s self t (a_graceful pa)) as [s1 o1] eqn:E. intros H; inversion H; subst. eapply keep_terminate; exact E.
+Qed.
+
 Lemma keep_spawn s u self t r s' o p : spawn s u self t r = (s', o, p) -> keep s s'.
 Proof.
   unfold spawn. destruct (provide s t) as [s1 inst] eqn:Ep.
@@ -123,7 +130,7 @@ Proof.
   assert (K2 : keep s s2) by (eapply keep_trans; [exact K1|apply keep_append]).
   destruct (lookup t (registry s2)).
   - intros H; inversion H; subst. exact K2.
-  - intros H; inversion H; subst. eapply keep_trans; [exact K2|].
+  - intros H. eapply keep_trans; [|eapply keep_stop; exact H]. eapply keep_trans; [exact K2|].
     eapply keep_trans; [|apply keep_deliver_sys]. eapply keep_trans; [|apply keep_upd_actor; kp]. apply keep_set_registry.
 Qed.
 
